@@ -58,6 +58,11 @@ type Server struct {
 	resourceChangeSubscriptions map[*ServerSession]jsonrpc.ID            // session -> requestID for "resources/changed"
 	resourceSubscriptions       map[string]map[*ServerSession]jsonrpc.ID // uri -> session -> requestID
 	pendingNotifications        map[string]*time.Timer                   // notification name -> timer for pending notification send
+	// listens records the open subscriptions/listen streams of each session,
+	// oldest first. Several streams of one session may have opted in to the
+	// same notification; the subscription maps above hold one request ID per
+	// session: that of the newest open stream that was granted it.
+	listens map[*ServerSession][]*listenStream
 	// receiveMethods is the merged map of methods this server may receive
 	// from a client: it always contains the standard server methods (from
 	// serverMethodInfos) plus any custom methods registered via
@@ -225,6 +230,7 @@ func NewServer(impl *Implementation, options *ServerOptions) *Server {
 		promptChangeSubscriptions:   make(map[*ServerSession]jsonrpc.ID),
 		resourceChangeSubscriptions: make(map[*ServerSession]jsonrpc.ID),
 		resourceSubscriptions:       make(map[string]map[*ServerSession]jsonrpc.ID),
+		listens:                     make(map[*ServerSession][]*listenStream),
 		pendingNotifications:        make(map[string]*time.Timer),
 		receiveMethods:              receiveMethods,
 	}
@@ -1233,7 +1239,9 @@ func (s *Server) subscriptionsListen(ctx context.Context, req *SubscriptionsList
 	}
 
 	allowed := s.allowedSubscriptions(req.Params.Notifications)
+	stream := &listenStream{id: requestID, allowed: allowed}
 	s.mu.Lock()
+	s.listens[req.Session] = append(s.listens[req.Session], stream)
 	if allowed.ToolsListChanged {
 		s.toolChangeSubscriptions[req.Session] = requestID
 	}
@@ -1262,6 +1270,23 @@ func (s *Server) subscriptionsListen(ctx context.Context, req *SubscriptionsList
 		}
 		s.mu.Unlock()
 	}()
+	// Runs before the clean-up above. The subscription maps hold one request ID
+	// per session, so an older stream of the session that opted in to the same
+	// notification was shadowed by this one: an entry that carries this
+	// listen's ID is handed to the newest other open stream that was granted
+	// it, and the session keeps receiving the notification.
+	defer func() {
+		s.mu.Lock()
+		s.handOver(s.toolChangeSubscriptions, req.Session, stream, func(l *listenStream) bool { return l.allowed.ToolsListChanged })
+		s.handOver(s.promptChangeSubscriptions, req.Session, stream, func(l *listenStream) bool { return l.allowed.PromptsListChanged })
+		s.handOver(s.resourceChangeSubscriptions, req.Session, stream, func(l *listenStream) bool { return l.allowed.ResourcesListChanged })
+		if rest := slices.DeleteFunc(s.listens[req.Session], func(l *listenStream) bool { return l == stream }); len(rest) > 0 {
+			s.listens[req.Session] = rest
+		} else {
+			delete(s.listens, req.Session)
+		}
+		s.mu.Unlock()
+	}()
 
 	for _, uri := range allowed.ResourceSubscriptions {
 		_, err := s.subscribe(ctx, &SubscribeRequest{
@@ -1274,13 +1299,13 @@ func (s *Server) subscriptionsListen(ctx context.Context, req *SubscriptionsList
 		if err != nil {
 			return nil, err
 		}
-		defer s.unsubscribe(ctx, &UnsubscribeRequest{
+		defer s.unsubscribeListen(ctx, &UnsubscribeRequest{
 			Session: req.Session,
 			Params: &UnsubscribeParams{
 				URI:  uri,
 				Meta: req.Params.GetMeta(),
 			},
-		})
+		}, stream)
 	}
 
 	ackParams := &SubscriptionsAcknowledgedParams{
@@ -1298,6 +1323,57 @@ func (s *Server) subscriptionsListen(ctx context.Context, req *SubscriptionsList
 	return &SubscriptionsListenResult{
 		Meta: Meta{MetaKeySubscriptionID: requestID.Raw()},
 	}, nil
+}
+
+// A listenStream is one open subscriptions/listen stream of a session.
+type listenStream struct {
+	id      jsonrpc.ID
+	allowed NotificationSubscriptions
+}
+
+// handOver is called, with s.mu held, when stream ends. If the session's entry
+// in subs carries the ID of stream, it is given the ID of the newest other open
+// stream of the session for which granted reports true. If there is none, the
+// entry is left to the caller.
+func (s *Server) handOver(subs map[*ServerSession]jsonrpc.ID, sess *ServerSession, stream *listenStream, granted func(*listenStream) bool) {
+	if id, ok := subs[sess]; !ok || id != stream.id {
+		return
+	}
+	open := s.listens[sess]
+	for i := len(open) - 1; i >= 0; i-- {
+		if open[i] != stream && granted(open[i]) {
+			subs[sess] = open[i].id
+			return
+		}
+	}
+}
+
+// unsubscribeListen undoes the resource subscription of a subscriptions/listen
+// stream that ends. Unlike resources/unsubscribe, it removes the session's
+// subscription only if it still carries the ID of that stream: another stream
+// of the same session may have subscribed to the URI since (a client that
+// cancels a stream and opens a new one at once; cancellations are handled
+// asynchronously), and a stream that this one shadowed takes the entry over.
+func (s *Server) unsubscribeListen(ctx context.Context, req *UnsubscribeRequest, stream *listenStream) {
+	if s.opts.UnsubscribeHandler != nil {
+		_ = s.opts.UnsubscribeHandler(ctx, req)
+	}
+	uri := req.Params.URI
+	s.mu.Lock()
+	defer s.mu.Unlock()
+	subs := s.resourceSubscriptions[uri]
+	if subs == nil {
+		return
+	}
+	s.handOver(subs, req.Session, stream, func(l *listenStream) bool {
+		return slices.Contains(l.allowed.ResourceSubscriptions, uri)
+	})
+	if id, ok := subs[req.Session]; ok && id == stream.id {
+		delete(subs, req.Session)
+		if len(subs) == 0 {
+			delete(s.resourceSubscriptions, uri)
+		}
+	}
 }
 
 func (s *Server) allowedSubscriptions(want *NotificationSubscriptions) NotificationSubscriptions {
@@ -1390,6 +1466,7 @@ func (s *Server) disconnect(cc *ServerSession) {
 	delete(s.toolChangeSubscriptions, cc)
 	delete(s.promptChangeSubscriptions, cc)
 	delete(s.resourceChangeSubscriptions, cc)
+	delete(s.listens, cc)
 
 	s.opts.Logger.Info("server session disconnected", "session_id", cc.ID())
 }
